@@ -56,6 +56,7 @@ func main() {
 		spec.Harnesses = hs
 		spec.Extra = nil
 	}
+	currentTier = *tier
 	run := runProperty(spec, *tier, seed, *workers, *solver)
 	os.Exit(finish(run))
 }
